@@ -35,5 +35,6 @@ func NewRequestMethodChecker() RequestMethodChecker {
 }
 
 func isRequestMethodUnderstood(req *http.Request) bool {
-	return req.Method == http.MethodGet && req.Header.Get("Range") == ""
+	// Any Range field line makes it a range request, also behind an empty one.
+	return req.Method == http.MethodGet && len(req.Header.Values("Range")) == 0
 }
